@@ -365,6 +365,13 @@ func ModelTaskFor(w *IntegWorld, t *TaskSpec, who string) *TaskExpect {
 				return x
 			}
 		}
+		for k := 0; k < cs.NBefore; k++ {
+			if planExit(w.Plan(execID("ctx:"+cs.Name, "before", k, ""))) != 0 {
+				// the context's before hook fails: same
+				x.Failed = true
+				return x
+			}
+		}
 	}
 	if t.Cond {
 		id := execID(t.Name, "cond", 0, "")
